@@ -18,6 +18,10 @@ SHAPES = {
     # name: (cargo args, crates whose fact files must exist)
     "main": (["-p", "qbice", "--no-default-features", "--features", "fjall,smallvec,bitvec"],
              ["qbice", "qbice_storage", "qbice_serialize", "qbice_stable_hash", "qbice_stable_type_id"]),
+    # unit-test build of the serializer: its test module holds the derive fixtures (unit/tuple/named structs,
+    # enums with unit/tuple/struct variants, generics, #[serialize(skip)])
+    "sertest": (["-p", "qbice_serialize", "--tests", "--features", "smallvec,bitvec"],
+                ["qbice_serialize__test"]),
     "rocks": (["--workspace"],
               ["qbice", "qbice_storage", "qbice_serialize", "qbice_stable_hash", "qbice_stable_type_id",
                "qbice_integration_test"]),
